@@ -124,6 +124,12 @@ theorem retainEvs_counts (i : Nat) (keep : List Bool) (k : Nat) (l : List Obj) (
     have := ih (k + 1)
     split <;> simp [Ev.detachIds, Ev.goneIds, this.1, this.2]
 
+theorem drainEvs_counts (i : Nat) (l : List Obj) (id : Nat) :
+    detachCnt id (drainEvs i l) = idCnt id l ∧ goneCnt id (drainEvs i l) = idCnt id l := by
+  induction l with
+  | nil => simp [drainEvs]
+  | cons o rest ih => simp [drainEvs, Ev.detachIds, Ev.goneIds, ih.1, ih.2]
+
 theorem natCnt_map_id (id : Nat) (l : List Obj) : natCnt id (l.map Obj.id) = idCnt id l := by
   induction l with
   | nil => rfl
